@@ -488,10 +488,10 @@ func c17ExecDirect(cfg *c17Cfg, rows []*c17Row) [][][]string {
 		got = got[:0]
 		switch r.special {
 		case "nap":
-			time.Sleep(1200 * time.Millisecond)
+			time.Sleep(2000 * time.Millisecond)
 			continue
 		case "reap":
-			gw.VerifReapIdle(time.Now().Add(9400 * time.Millisecond))
+			gw.VerifReapIdle(time.Now().Add(9000 * time.Millisecond))
 			continue
 		}
 		gw.VerifProcessRow(r.data, time.Unix(0, r.ts))
